@@ -70,12 +70,12 @@ static int child(uint64_t caseseed,int pipefd){ vc_rng r; vc_rng_seed(&r,casesee
   char line[600]; int roles=0; for(int i=0;i<T;i++) roles|=1<<tc[i].role; int n=snprintf(line,sizeof line,"R %d %ld %016llx %d %d %s\n",T,ops,(unsigned long long)sig,roles,bad,msg); if(write(pipefd,line,n)<0){} return bad; }
 
 static void mode_threads(void){
-  vc_rng r; vc_case_rng(&r,14); uint64_t cs=vc_next(&r); int pr[2], pe[2]; if(pipe(pr)||pipe(pe)){ fprintf(stderr,"pipe failed\n"); exit(3); } fflush(stdout);
+  vc_rng r; vc_case_rng(&r,14); uint64_t cs=vc_next(&r); int pr[2]; FILE *ef=tmpfile();   /* the child's stderr goes to an unlinked temporary file: a pipe would fill up on many sanitizer reports and block the child */
+  if(pipe(pr)||!ef){ fprintf(stderr,"pipe/tmpfile failed\n"); exit(3); } fflush(stdout);
   pid_t pid=fork(); if(pid<0){ fprintf(stderr,"fork failed\n"); exit(3); }
-  if(pid==0){ close(pr[0]); close(pe[0]); dup2(pe[1],2); int rc=child(cs,pr[1]); _exit(rc); }
-  close(pr[1]); close(pe[1]); char rbuf[700]; int rn=0; for(;;){ int k=(int)read(pr[0],rbuf+rn,sizeof rbuf-1-rn); if(k<=0) break; rn+=k; } rbuf[rn]=0;
-  static char ebuf[60000]; int en=0; for(;;){ int k=(int)read(pe[0],ebuf+en,sizeof ebuf-1-en); if(k<=0) break; en+=k; if(en>=(int)sizeof ebuf-1) { char dump[4096]; while(read(pe[0],dump,sizeof dump)>0); break; } } ebuf[en]=0; close(pr[0]); close(pe[0]);
-  int st=0; waitpid(pid,&st,0); int T=0,roles=0,bad=0; long ops=0; unsigned long long sig=0; char msg[400]; msg[0]=0; if(rn>0) sscanf(rbuf,"R %d %ld %llx %d %d %399[^\n]",&T,&ops,&sig,&roles,&bad,msg);
+  if(pid==0){ close(pr[0]); dup2(fileno(ef),2); int rc=child(cs,pr[1]); _exit(rc); }
+  close(pr[1]); char rbuf[700]; int rn=0; for(;;){ int k=(int)read(pr[0],rbuf+rn,sizeof rbuf-1-rn); if(k<=0) break; rn+=k; } rbuf[rn]=0; close(pr[0]);
+  int st=0; waitpid(pid,&st,0); static char ebuf[60000]; int en=0; rewind(ef); en=(int)fread(ebuf,1,sizeof ebuf-1,ef); if(en<0) en=0; ebuf[en]=0; fclose(ef); int T=0,roles=0,bad=0; long ops=0; unsigned long long sig=0; char msg[400]; msg[0]=0; if(rn>0) sscanf(rbuf,"R %d %ld %llx %d %d %399[^\n]",&T,&ops,&sig,&roles,&bad,msg);
   vc_count("processes",1); vc_count("threads",T); vc_count("api_operations",ops); if(sig) vc_sig(sig); for(int q=0;q<6;q++) if(roles&(1<<q)) vc_named("role-%d-run-concurrently",q);
   int ex=WIFEXITED(st)?WEXITSTATUS(st):-WTERMSIG(st);
   if(strstr(ebuf,"ThreadSanitizer")){ /* name the report by its SUMMARY line(s) */ char key[160]="tsan:report"; char *s=strstr(ebuf,"SUMMARY: ThreadSanitizer: "); char sum[300]=""; if(s){ snprintf(sum,sizeof sum,"%.290s",s+26); char *nl=strchr(sum,'\n'); if(nl) *nl=0; char kind[60]="report", fn[80]=""; sscanf(sum,"%59[^(/] ",kind); char *in=strstr(sum," in "); if(in) sscanf(in+4,"%79s",fn); for(char *p=kind;*p;p++) if(*p==' ') *p='-'; while(kind[0]&&kind[strlen(kind)-1]=='-') kind[strlen(kind)-1]=0; snprintf(key,sizeof key,"tsan:%s@%s",kind,fn[0]?fn:"?"); }
